@@ -167,6 +167,9 @@ PROPERTIES = {
             {"name": "scale", "cases": FE.scale_cases(tier, seed), "mask": M_GRAD,
              "what": "scale beyond the exhaustive bound: one leaf with up to 300 (thorough 520) consumers, chains of up to 90 (130) built-in operations, up to 9 passes with drops and clears in between, 12 results alive at once, programs of 25-45 steps",
              "require": {"passes": 40}},
+            {"name": "self_operands", "cases": FE.self_operand_cases(tier, seed + 2), "mask": M_GRAD,
+             "what": "one array at several operand positions, against clones and reshaped views of itself (shared buffers) with broadcasting, expressions that repeat or cancel",
+             "require": {"passes": 60}},
             {"name": "suite_derived", "cases": FE.suite_derived_cases(), "mask": M_GRAD | {"values", "dims", "tracked-flag", "immutable"},
              "what": "the README / module-doc loop with its data-dependent branch (four parameter sets) and the graphs of the repository's own backward tests, with every value, flag and gradient validated at every step",
              "require": {"passes": 15}},
@@ -327,6 +330,9 @@ PROPERTIES = {
             {"name": "updates", "cases": FM.c13_cases(tier, seed), "mask": M_UPD | M_GRAD | {"immutable"},
              "what": "parameter lists of 1..4 entries over 6 shapes, a subset holding gradients, learning rates {0, 1, 1/2, -2, 3/4}, two updates in a row, older clones kept alive; gradients from real passes with frozen parameters in between",
              "require": {"updates": 400}},
+            {"name": "model_updates", "cases": FM.model_update_cases(tier, seed), "mask": M_UPD | {"grad-presence", "tracked-flag"},
+             "what": "Model::update over 1-2 dense layers: a new Model built over the same layers between backward and update, repeated updates and backward passes, frozen parameters - every parameter and slot after every update",
+             "require": {"updates": 20}},
         ],
         "rule": "a case = one parameter list x gradient subset x learning rate (two rounds); distinct by program hash",
     },
